@@ -1025,3 +1025,58 @@ Example smtp_reuse_example :
      WMail 11; WRcpt 11; WData 11; WEmptyBody 11; WResult 11 false; WRset;
      WMail 12; WRcpt 12; WData 12; WBody 12; WResult 12 true; WQuit; WClose].
 Proof. vm_compute. reflexivity. Qed.
+
+(* ================================================================== *)
+(* 4. HttpRelayClient                                                 *)
+
+Definition hrun_wire reuse polls := fst (fst (http_run reuse polls)).
+Definition hrun_acts reuse polls := snd (fst (http_run reuse polls)).
+
+Lemma http_loop_clean : forall reuse polls conn,
+    http_clean HClean (fst (fst (http_loop reuse conn polls))) = true.
+Proof.
+  intros reuse. induction polls as [|p polls IH]; intros conn; [reflexivity|].
+  cbn [http_loop]. destruct p as [[r h]|].
+  - destruct h; destruct reuse; destruct conn;
+      try (pose proof (IH true) as IH'; destruct (http_loop true true polls) as [[w a] x]; cbn [fst snd] in *);
+      cbn [fst snd app http_clean]; rewrite ?N.eqb_refl; cbn [andb http_clean]; try reflexivity; exact IH'.
+  - destruct reuse; [|destruct conn; reflexivity].
+    pose proof (IH false) as IH'. destruct (http_loop true false polls) as [[w a] x]. cbn [fst snd] in *.
+    destruct conn; cbn [app http_clean]; exact IH'.
+Qed.
+
+Lemma http_loop_contract : forall reuse polls conn,
+    follows_contract HBusy (snd (fst (http_loop reuse conn polls))) = true.
+Proof.
+  intros reuse. induction polls as [|p polls IH]; intros conn; [reflexivity|].
+  cbn [http_loop]. destruct p as [[r h]|].
+  - destruct h; destruct reuse; destruct conn;
+      try (pose proof (IH true) as IH'; destruct (http_loop true true polls) as [[w a] x]; cbn [fst snd] in *);
+      cbn [fst snd follows_contract]; rewrite ?req_eqb_refl; cbn [andb]; try reflexivity; exact IH'.
+  - destruct reuse; [|reflexivity].
+    pose proof (IH false) as IH'. destruct (http_loop true false polls) as [[w a] x]. cbn [fst snd] in *.
+    cbn [follows_contract]. exact IH'.
+Qed.
+
+(* on the HTTP client's connection exchanges never overlap, and an exchange that broke off is
+   followed by close() before the next request *)
+Lemma http_one_exchange_then_reset : forall reuse polls,
+    http_clean HClean (hrun_wire reuse polls) = true.
+Proof. intros. apply http_loop_clean. Qed.
+
+Lemma http_client_contract : forall reuse polls c,
+    follows_contract HBusy (hrun_acts reuse polls) = true /\
+    Forall contract_ev (flat_map (evs_of_act c) (hrun_acts reuse polls)).
+Proof.
+  intros reuse polls c. split; [apply http_loop_contract|].
+  apply Forall_forall. intros e He. apply in_flat_map in He. destruct He as [a [_ Ha]].
+  destruct a; cbn in Ha; repeat (destruct Ha as [<- | Ha]; [exact I|]); destruct Ha.
+Qed.
+
+(* first delivery times out, the connection is closed, the client ends; a checker-rejected log for
+   contrast: the next request on the connection that still is inside the broken exchange *)
+Example http_reset_example :
+  hrun_wire true [Some (mkReq 0 10, HOk); Some (mkReq 1 11, HTimeout)]
+  = [HRequest 10; HConnect; HResponse 10; HResultW 10 true; HRequest 11; HResultW 11 false; HCloseW]
+  /\ http_clean HClean [HRequest 11; HConnect; HResultW 11 false; HRequest 12] = false.
+Proof. vm_compute. split; reflexivity. Qed.
